@@ -107,3 +107,38 @@ def run(ck, prog):
     pruning(ck, prog, CT + "find$", "CoverTree::find prunes by kth-distance + max_dist",
             lambda t: t[0] == "call" and t[1].endswith("HeapSelection::<T>::peek"), frozenset("n"))
     ck.floor("E2g-pruning", 2)
+
+
+def sentinel_rule(ck, prog):
+    from sa import sentinel
+    rule = "E2i-sentinel"
+    sent, may, inst = sentinel.analyse(prog, r"^algorithm::neighbour::cover_tree::CoverTree::<T, F, D>::")
+    ck.extra["sentinel"] = dict(functions=sent, parameters={f"{k[0]}#{k[1]}": v for k, v in may.items()})
+    if not sent:
+        # no sentinel-returning function any more: nothing to protect
+        ck.ok(rule, "no integer sentinel is returned in cover_tree", "algorithm::neighbour::cover_tree", "", "no extreme constant returned")
+        return
+    for s in inst:
+        i = f"checked arithmetic on a possibly-sentinel parameter is guarded ({s['name']})"
+        if s["protected"]:
+            ck.ok(rule, i, s["fn"], s["where"], f"{s['op']} on `{s['name']}` dominated by a test against the sentinel")
+        else:
+            ck.violation(rule, i, s["fn"], s["where"],
+                         expected="overflow-checked arithmetic on a value that may be the sentinel is dominated by an equality test against the sentinel",
+                         found=f"{s['op']} on parameter `{s['name']}`, which may be the sentinel ({s['sentinel']}): {s['origin']}; "
+                               f"with all points identical construction panics on overflow (debug) - 'all points identical' is in the quantifier")
+    if not inst:
+        ck.ok(rule, "sentinel parameters are not used in checked arithmetic", "algorithm::neighbour::cover_tree", "",
+              f"{len(may)} parameters may carry the sentinel; none feeds overflow-checked arithmetic")
+
+
+_run1 = run
+
+
+def run(ck, prog):
+    _run1(ck, prog)
+    sentinel_rule(ck, prog)
+    ck.floor("E2i-sentinel", 1)
+    from props.C09 import decode_rule, classes_from_unique
+    decode_rule(ck, prog, r"^neighbors::knn_classifier::KNNClassifier::<T, D>::predict$", "KNNClassifier::predict stores classes[..]", 1)
+    ck.floor("E2a-label-decode", 1)
